@@ -262,4 +262,46 @@ PROPS = {
         ],
         "partial": ["part (b) of C13 (graph built from embedded module info equals graph built by parsing) is not modelled yet; only the codec and the moduleGraph1 upgrade are proved and tied to the code"],
     },
+    "C20": {
+        "harness": "c20",
+        "props_file": "Props/C20.v",
+        "run_module": "Model.Text Model.RunC20",
+        "run_fn": "run_c20",
+        "pinned_theorems": ["C20_original_bytes", "C20_text_is_decoding", "C20_unchanged_iff", "C20_bom_only_iff",
+                            "C20_changed_iff", "C20_size", "C20_undecodable", "C20_text_valid",
+                            "C20_charset_header_wins", "C20_charset_remote_default", "C20_charset_file_sniff",
+                            "C20_valid_utf8_iff", "C20_utf8_roundtrip", "C20_utf16_roundtrip",
+                            "C20_holdsb_correct", "C20_model_holds",
+                            "C20_jsr_fill_holds_outside_known_class", "C20_jsr_fill_original_bytes",
+                            "C20_jsr_fill_ignores_header_refuted", "C20_new_unknown"],
+        "rule": ("one case = one byte string and one media (ts, js, json; an enumerated string gives three cases) "
+                 "served to the REAL code under every combination of content-type header "
+                 "x scheme (file:, https:) x route (0: public parse_module; 1: real graph build "
+                 "whose loader serves bytes + headers, JSON via `with {type: json}`; 2 (https): real build of a JSR "
+                 "package whose version manifest carries the module info, so that the content is filled in afterwards; "
+                 "3 (https, not in the base enumeration): the same package served from the cache), 12-348 combinations per case "
+                 "(coverage.distribution.combinations = total). Byte strings: ALL strings of length <= 3 (quick) / "
+                 "<= 4 (thorough) over {00,0A,41,7F,80,BF,C2,E0,ED,EF,BB,F0,F4,FE,FF} with 11 header shapes (none, "
+                 "media only, utf-8, UTF-8, utf8, utf-16le, utf-16be, windows-1252, bogus, charset= in 2nd/3rd "
+                 "position with spaces); ALL strings of length <= 2 (quick) / <= 3 (thorough) over that alphabet + "
+                 "{D8,DC,9F,A0,8F,90,1B} with 58 header shapes for length <= 1 and a rotating 28 of them above (every UTF-8/UTF-16 label of encoding_rs, quoted, "
+                 "empty, upper-case parameter name, Unicode white space, legacy encodings, replacement, "
+                 "iso-2022-jp, unsupported media type); then 6000 (quick) / 90000 (thorough) structured or "
+                 "random strings from one SplitMix64 state (valid UTF-8 with/without BOM, double BOM, UTF-16LE/BE "
+                 "with right/wrong/no BOM, lone surrogates, odd length, overlong/surrogate/out-of-range/truncated "
+                 "UTF-8, gb18030 BOM, ESC sequences, truncations) with up to 6 random header shapes each. Compared per "
+                 "combination: header charset seen by the real resolver, error-vs-module, stored text bytes, "
+                 "decoded kind, try_get_original_bytes(), size(), serialised size; the real observation is "
+                 "also judged by the extracted decision procedure (C20_holdsb_correct). non-trivial = non-empty "
+                 "byte string whose combinations show >= 2 different (outcome, kind) pairs; distinct = distinct "
+                 "model input"),
+        "assumptions": [
+            "labels other than the UTF-8/UTF-16LE/UTF-16BE labels are answered by encoding_rs itself (oracle data: supported?, borrow rule, decoded scalars); the model adds BOM stripping, kind, original bytes, size on top",
+            "media type resolution (extension / content-type media part) is data computed by the real crate",
+            "module sources that do not parse are turned into dependency-free modules by a wrapping ModuleAnalyzer so that their stored text can be observed; texts that still start with U+FEFF are not handed to deno_ast (it panics on them in debug builds)",
+            "serialised size equals the text length below 4 GiB (u32 truncation is modelled, larger texts are not generated)",
+            "known finding F-C20a (the JSR deferred content fill ignores the charset of the response's content-type header) is reported as KNOWN-FINDING; the comparison of all observed values with the model is NOT suspended for it",
+        ],
+        "partial": ["on the JSR deferred content-fill route the text-is-decoding clause is proved only when the response header names no charset or a UTF-8 label (C20_jsr_fill_holds_outside_known_class); the unrestricted statement is refuted (C20_jsr_fill_ignores_header_refuted, F-C20a); the original-bytes and size clauses hold on every route"],
+    },
 }
